@@ -1,3 +1,4 @@
+pub mod c01;
 pub mod c02;
 pub mod c07;
 pub mod c11;
@@ -12,6 +13,7 @@ use crate::core::Tier;
 
 pub fn run(id: &str, tier: Tier) -> Option<i32> {
     Some(match id {
+        "C01" => c01::run(tier),
         "C02" => c02::run(tier),
         "C07" => c07::run(tier),
         "C11" => c11::run(tier),
@@ -43,6 +45,10 @@ pub fn replay(property: &str, part: &str, case: &serde_json::Value) -> Option<Re
         ("C15", "no-limit") => replay_part(&c15::NoLimit, case, 1),
         ("C12", "abandon-sweep") => replay_part(&c12::Sweeps, case, 1),
         ("C12", "abandon-history") => replay_part(&c12::Histories, case, 1),
+        ("C01", "verifier") => replay_part(&c01::Verifiers, case, 1),
+        ("C01", "handshake-signature") => replay_part(&c01::Signatures, case, 1),
+        ("C01", "handshake") => replay_part(&c01::Handshakes, case, 1),
+        ("C01", "message") => replay_part(&c01::Messages, case, 1),
         _ => return None,
     })
 }
